@@ -64,16 +64,16 @@ def r1(ctx):
         tag = "resend" if i == 0 else "new"
         sweep(ctx, "C05.R1", "L1[%s] T_frag + overhead(1) <= CAP" % tag,
               "the largest payload that send() does not fragment fits alone into an empty datagram (else it stays queued for ever)",
-              lambda m, c, i=i: m["T_frag"] + o1 <= m["CAPS"][i],
-              lambda m, c, i=i: {"T_frag": m["T_frag"], "overhead(1)": o1, "CAP": m["CAPS"][i], "guard": norm(c.guards[i]["if"].test)}, bpi)
+              lambda m, c, i=i: c.size_alone(m, i, m["T_frag"]) <= m["CAPS"][i],
+              lambda m, c, i=i: {"T_frag": m["T_frag"], "accounted_size_alone": c.size_alone(m, i, m["T_frag"]), "CAP": m["CAPS"][i], "guard": norm(c.guards[i]["if"].test)}, bpi)
         sweep(ctx, "C05.R1", "L2[%s] F + FRAGMENT_OVERHEAD + overhead(1) <= CAP" % tag,
               "an intermediate fragment (with its prefix) fits alone into an empty datagram",
-              lambda m, c, i=i: m["F"] + fo + o1 <= m["CAPS"][i] and max(m["F_set"]) + fo + o1 <= m["CAPS"][i],
-              lambda m, c, i=i: {"F": m["F_set"], "FRAGMENT_OVERHEAD": fo, "overhead(1)": o1, "CAP": m["CAPS"][i]}, bpi)
+              lambda m, c, i=i: c.size_alone(m, i, max(m["F_set"]) + fo) <= m["CAPS"][i],
+              lambda m, c, i=i: {"F": m["F_set"], "FRAGMENT_OVERHEAD": fo, "accounted_size_alone": c.size_alone(m, i, max(m["F_set"]) + fo), "CAP": m["CAPS"][i]}, bpi)
         sweep(ctx, "C05.R1", "L3[%s] (L_last - 1) + FRAGMENT_OVERHEAD + overhead(1) <= CAP" % tag,
               "the largest last fragment (with its prefix) fits alone into an empty datagram",
-              lambda m, c, i=i: (m["L_last"] - 1) + fo + o1 <= m["CAPS"][i],
-              lambda m, c, i=i: {"L_last": m["L_last"], "FRAGMENT_OVERHEAD": fo, "overhead(1)": o1, "CAP": m["CAPS"][i]}, bpi)
+              lambda m, c, i=i: c.size_alone(m, i, (m["L_last"] - 1) + fo) <= m["CAPS"][i],
+              lambda m, c, i=i: {"L_last": m["L_last"], "FRAGMENT_OVERHEAD": fo, "accounted_size_alone": c.size_alone(m, i, (m["L_last"] - 1) + fo), "CAP": m["CAPS"][i]}, bpi)
         sweep(ctx, "C05.R1", "Lc[%s] count guard admits a first message" % tag,
               "an empty datagram always admits one message",
               lambda m, c, i=i: m["COUNT_CAPS"][i] is None or m["COUNT_CAPS"][i] >= 1,
